@@ -221,18 +221,27 @@ class C09:
         runs = []
         t0 = time.time()
         for i, (pl, blk) in enumerate(zip(plans, blocks)):
-            c = Case("racestress", "rs%d" % i, [blk.decode().rstrip(".")] + list(pl))
-            cp, op = os.path.join(rdir, "case%d.txt" % i), os.path.join(rdir, "obs%d.txt" % i)
-            lib.write_cases([c], cp)
-            env = dict(os.environ, VERIF_CASES=cp, VERIF_OUT=op, VERIF_RS_ERRLOG="1",
-                       GORACE="halt_on_error=0 exitcode=66 history_size=2")
-            try:
-                p = subprocess.run([drv, "-test.run", "^TestVerifDriver$", "-test.timeout", "180s"], env=env, cwd=rdir,
-                                   stdout=subprocess.PIPE, stderr=subprocess.STDOUT, timeout=240)
-                rc, log = p.returncode, p.stdout.decode("utf-8", "replace")
-            except subprocess.TimeoutExpired as e:
-                rc, log = 124, (e.stdout or b"").decode("utf-8", "replace") + "\n<driver timed out: deadlock?>"
-            obs = lib.parse_obs(op).get(c.id) if os.path.exists(op) else None
+            for attempt in range(3):
+                c = Case("racestress", "rs%d" % i, [blk.decode().rstrip(".")] + list(pl))
+                cp, op = os.path.join(rdir, "case%d.txt" % i), os.path.join(rdir, "obs%d.txt" % i)
+                lib.write_cases([c], cp)
+                if os.path.exists(op):
+                    os.remove(op)
+                env = dict(os.environ, VERIF_CASES=cp, VERIF_OUT=op, VERIF_RS_ERRLOG="1",
+                           GORACE="halt_on_error=0 exitcode=66 history_size=2")
+                try:
+                    p = subprocess.run([drv, "-test.run", "^TestVerifDriver$", "-test.timeout", "180s"], env=env, cwd=rdir,
+                                       stdout=subprocess.PIPE, stderr=subprocess.STDOUT, timeout=240)
+                    rc, log = p.returncode, p.stdout.decode("utf-8", "replace")
+                except subprocess.TimeoutExpired as e:
+                    rc, log = 124, (e.stdout or b"").decode("utf-8", "replace") + "\n<driver timed out: deadlock?>"
+                obs = lib.parse_obs(op).get(c.id) if os.path.exists(op) else None
+                # the address block may still be held by a process of another check running at the same time (the block
+                # counter wraps): play the plan again in a fresh block; a proxy that cannot start for another reason fails again
+                if obs and obs[0] in (b"setup-fail", b"start-fail") and attempt < 2:
+                    blk = proxygen.alloc_blocks(1)[0]
+                    continue
+                break
             base = {"component": "racestress", "case_id": c.id, "case_line": c.line(), "case": [lib.show(t) for t in c.toks],
                     "plan": dict(zip(("listeners", "senders", "msgs", "changes", "tcp", "gomaxprocs", "burst"), pl))}
             if "WARNING: DATA RACE" in log:
